@@ -488,6 +488,12 @@ func c14Complete(cl *c14Claim) {
 	}
 }
 
+func c14Timing(what string, t0 time.Time) {
+	if os.Getenv("VERIF_C14_TIMING") != "" {
+		fmt.Printf("TIMING %-28s %v\n", what, time.Since(t0))
+	}
+}
+
 // ---------------------------------------------------------------------------
 // one sequential history
 
@@ -619,8 +625,11 @@ func (s *verifC14Suite) c14History(c *C, k *kit.Check, idx int, sc c14Script) {
 		}
 
 		before := s.c14Footprint()
+		t0 := time.Now()
 		out := s.c14Issue(req, idx*100+i)
+		c14Timing("issue "+req.Op, t0)
 		after := s.c14Footprint()
+		t0 = time.Now()
 
 		tr := c14Trace{Op: req.Op, Snaps: strings.Join(req.Snaps, ","), Busy: blocking != nil, Progress: step.Progress}
 		if excl != nil {
@@ -761,6 +770,7 @@ func (s *verifC14Suite) c14History(c *C, k *kit.Check, idx int, sc c14Script) {
 			s.c14Passes(1)
 			st.Lock()
 		}
+		c14Timing("progress "+step.Progress, t0)
 		k.Max("max_unready_claims", m.unready())
 	}
 
@@ -779,6 +789,10 @@ func (s *verifC14Suite) c14History(c *C, k *kit.Check, idx int, sc c14Script) {
 		}
 	}
 
+	if os.Getenv("VERIF_C14_TIMING") != "" {
+		b, _ := json.Marshal(st)
+		fmt.Printf("TIMING state json size %d, tasks %d, changes %d\n", len(b), len(st.Tasks()), len(st.Changes()))
+	}
 	k.Eval()
 	k.Count("histories", 1)
 	k.Count("requests", len(sc.Steps))
